@@ -20,6 +20,7 @@ import (
 	"os"
 	"reflect"
 	"sort"
+	"strings"
 	"sync"
 	"time"
 
@@ -209,6 +210,7 @@ type issueObs struct {
 	VerifyErr string   `json:"verify_err"`
 	OtherKey  bool     `json:"other_key"`
 	Tampered  []string `json:"tampered"` // positions whose change was NOT noticed
+	Resigned  []string `json:"resigned"` // re-encoded signature values (s+n, r+n) that still verified
 	TamperN   int      `json:"tamper_n"`
 	FieldDiff []string `json:"field_diff"`
 	Panic     string   `json:"panic"`
@@ -222,6 +224,16 @@ func runIssue(kind, family, alg, class string, dense bool) (o issueObs) {
 		otherHolder := holder(other.Public())
 		sa := algByName[alg]
 		subjKey, _ := sm2.GenerateKey(rand.Reader)
+		switch class {
+		case "subjkey_shortx":
+			subjKey = keyWithCoord("lead0_1", "x")
+		case "subjkey_shorty":
+			subjKey = keyWithCoord("lead0_1", "y")
+		}
+		if kind == "csr" && strings.HasPrefix(class, "subjkey_") {
+			signer = subjKey // the request's key is its signer's
+			issuer = holder(signer.Public())
+		}
 		var der []byte
 		var err error
 		// verify returns nil iff the (possibly modified) DER verifies under h
@@ -330,30 +342,64 @@ func runIssue(kind, family, alg, class string, dense bool) (o issueObs) {
 		asn1.Unmarshal(rest, &sig)
 		hdr := len(der) - len(outer.Bytes)
 		tbsEnd := hdr + len(tbs.FullBytes)
-		sigStart := len(der) - len(sig.Bytes) + 1 // skip the unused-bits octet
+		sigTLV := len(der) - len(sig.FullBytes) // the whole BIT STRING: header, unused-bits octet, value
 		var pos []int
 		for p := hdr; p < tbsEnd; p++ {
 			pos = append(pos, p)
 		}
-		for p := sigStart; p < len(der); p++ {
+		for p := sigTLV; p < len(der); p++ {
 			pos = append(pos, p)
 		}
+		must := map[int]bool{hdr: true, tbsEnd - 1: true, sigTLV: true, sigTLV + 1: true, len(der) - len(sig.Bytes): true, len(der) - len(sig.Bytes) + 1: true, len(der) - 1: true}
 		step := 1
 		if !dense {
 			step = len(pos)/60 + 1
 		}
-		for i := 0; i < len(pos); i += step {
-			p := pos[i]
-			m := append([]byte(nil), der...)
-			m[p] ^= 0x01
-			o.TamperN++
-			if verify(m, issuer) == nil {
-				// a change that does not alter the DER value semantics of the signed bytes cannot exist: report
-				o.Tampered = append(o.Tampered, fmt.Sprint(p))
+		for i, p := range pos {
+			if i%step != 0 && !must[p] {
+				continue
+			}
+			for _, x := range []byte{0x01, 0x80} {
+				m := append([]byte(nil), der...)
+				m[p] ^= x
+				o.TamperN++
+				if verify(m, issuer) == nil {
+					// a change that does not alter the DER value semantics of the signed bytes cannot exist: report
+					o.Tampered = append(o.Tampered, fmt.Sprintf("%d^%02x", p, x))
+				}
+			}
+		}
+		// the same numbers written differently are another signature value: (r, s + n) and (r + n, s) for the elliptic-curve families
+		if family != "rsa" {
+			var rs struct{ R, S *big.Int }
+			if _, e := asn1.Unmarshal(sig.Bytes[1:], &rs); e == nil {
+				n := orderOf(signer.Public())
+				if n != nil {
+					for name, v := range map[string][2]*big.Int{"s+n": {rs.R, new(big.Int).Add(rs.S, n)}, "r+n": {new(big.Int).Add(rs.R, n), rs.S}} {
+						nsig, _ := asn1.Marshal(struct{ R, S *big.Int }{v[0], v[1]})
+						bits, _ := asn1.Marshal(asn1.BitString{Bytes: nsig, BitLength: len(nsig) * 8})
+						body := append(append(append([]byte(nil), tbs.FullBytes...), alg.FullBytes...), bits...)
+						m, _ := asn1.Marshal(asn1.RawValue{Class: 0, Tag: 16, IsCompound: true, Bytes: body})
+						o.TamperN++
+						if verify(m, issuer) == nil {
+							o.Resigned = append(o.Resigned, name)
+						}
+					}
+				}
 			}
 		}
 	})
 	return
+}
+
+func orderOf(pub crypto.PublicKey) *big.Int {
+	switch k := pub.(type) {
+	case *sm2.PublicKey:
+		return k.Curve.Params().N
+	case *ecdsa.PublicKey:
+		return k.Curve.Params().N
+	}
+	return nil
 }
 
 var oidAlg = map[string]string{
